@@ -38,6 +38,23 @@ def c13(tier):
         ("grpc_list", {"query": "neither", "namespace": "known", "object": "absent", "subject": "absent", "page_size": "absent", "page_token": "absent"}),
         ("grpc_delete", {"query": "neither", "namespace": "known", "object": "absent", "subject": "absent"}),
     ]
+    # whole documents for the syntax-check endpoints: the typed programs of OplTypes.tla (every type of the traversed relation, recursive
+    # subject-set types, mutations, class orders) and, in the thorough tier, expression programs of OplGrammar.tla
+    cfg = write_cfg(["AsIsThroughSubjectSet = TRUE"])
+    tp = tlc("OplTypes", "t1.cfg", files={"t1.cfg": cfg})
+    ck.add_tlc(tp)
+    import random
+    rnd = random.Random(seed())
+    docs = sorted({l["src"] for l in tp.lines})
+    bykey = {}
+    for l in tp.lines:
+        bykey.setdefault((l["prog"]["pt"], l["prog"]["gm"], l["prog"]["body"], l["prog"]["mut"] == "none"), []).append(l["src"])
+    pick = [rnd.choice(sorted(set(v))) for k, v in sorted(bykey.items())]      # one per (types, body, mutated?) class: 100 documents
+    if tier != "quick":
+        pick += rnd.sample(docs, min(len(docs), 1500))
+    for j, src in enumerate(pick):
+        corners.append(("rest_syntax" if j % 2 == 0 else "grpc_syntax", {"bytes": "prog:" + src}))
+    ck.extra["opl_documents_sent_to_syntax_check"] = len(pick)
     for ep, f in corners:
         reqs.append({"i": len(reqs), "ep": ep, "fields": f, "readonly": ep not in ("rest_create", "rest_delete", "rest_patch", "grpc_transact", "grpc_delete", "rest_wrong_route")})
     pending = list(reqs)
